@@ -541,6 +541,18 @@ def run_es_case(case):
             f = es_iteration(case, es, shadow, op, where, kind, dt, tol, dim, batch, lb, ub, lb64, ub64, adam_ref)
             if f:
                 return f
+            # documented protocol: after tell, check_stop(); when it says stop the optimizer is reset
+            # (histories that keep going past a stop condition are outside the usage the classes document)
+            if es.check_stop(np.sort(perm_vals(case, op, batch, 0))[::-1]):
+                count(f"{kind}:check_stop-reset")
+                es.reset(x0)
+                fresh = make_es(case)
+                fresh.reset(x0)
+                d = diff_public(es, fresh)
+                if d:
+                    return fail("oracle", where, f"after reset public attributes differ from a fresh instance: {d}")
+                if adam_ref is not None:
+                    adam_ref.update(m=np.zeros(dim), v=np.zeros(dim), t=0, mm=["0"] * dim, mv=["0"] * dim, mt=0)
     except Stop as s:
         count(f"{kind}:stop-{s}")
         return None
